@@ -31,7 +31,7 @@ RULE = ("seeded random ASTs over + - * / (strings) and + - * / min max consumpti
         "sub-expressions, large values and non-dyadic rationals. distinct = canonical program JSON; non-trivial = "
         ">=2 binary operators and >=1 round compared with a discriminating bound")
 PAIRS = [f"pair:{p}{s}{c}" for p in fm.BINOPS for s in "LR" for c in fm.BINOPS]
-REQUIRED_BUCKETS = ["api-sub-expression-object-used-in-two-expressions", "mode:string", "mode:builder", "mode:api", "mode:api3", "redundant-parens", "same-engine-twice",
+REQUIRED_BUCKETS = ["api-sub-expression-object-used-in-two-expressions", "api-sub-expression-also-built-under-the-enclosing-formula's-name", "mode:string", "mode:builder", "mode:api", "mode:api3", "redundant-parens", "same-engine-twice",
                     "api-min-max", "api-consumption-production", "api-constant", "subexpression-zero", "mode:builderx",
                     "builder-clip-step", "inputs-begin-at-different-times",
                     "distinct-engines-with-the-same-name", "mode:pool", "api-nested-builds",
@@ -61,7 +61,9 @@ def gen(rng: Any, tier: str, i: int) -> Any:
     if mode == "api" and rng.random() < 0.4:
         prog["nest"] = True
     if mode == "api" and rng.random() < 0.3:
-        prog["reuse"] = rng.choice([1, 2, 3])  # sub-expression objects are operands of other expressions as well
+        # sub-expression objects are operands of other expressions as well (bits 1, 2) / are built into formulas of
+        # their own under the enclosing formula's name (bit 4)
+        prog["reuse"] = rng.choice([1, 2, 3, 4, 5, 6, 7])
     vecs = []
     for _ in range(8):
         r = rng.random()
@@ -215,6 +217,8 @@ def check(prog: dict[str, Any], rec: Any) -> None:
         rec.bucket("api-nested-builds")
     if prog.get("reuse"):
         rec.bucket("api-sub-expression-object-used-in-two-expressions")
+    if int(prog.get("reuse") or 0) & 4:
+        rec.bucket("api-sub-expression-also-built-under-the-enclosing-formula's-name")
     if prog.get("prelude"):
         rec.bucket("inputs-begin-at-different-times")
     if prog.get("leaf_names") and len(set(prog["leaf_names"][i] for i in set(lv))) < len(set(lv)):
